@@ -45,6 +45,9 @@ class Check(PropertyCheck):
             if _i % 15 == 3:
                 yield Scenario(["new", f"mark customfilter {rng.randint(0, 10**6)}"], {"family": "custom_filter", "accepted": 3, "style": "custom_filter"})
                 continue
+            if _i % 15 == 13:
+                yield Scenario(["new", f"mark gcflex {rng.randint(0, 10**6)}"], {"family": "gcflex", "accepted": 3, "style": "gcflex"})
+                continue
             if _i % 15 == 11:
                 yield Scenario(["new", f"mark raiser {rng.randint(0, 10**6)}"], {"family": "raiser", "accepted": 3, "style": "raiser"})
                 continue
@@ -59,6 +62,8 @@ class Check(PropertyCheck):
             return oracles.raiser_episode(int(line.split()[2]))["C01"]
         if line.startswith("mark customfilter"):
             return oracles.custom_filter_episode(int(line.split()[2]))["C01"]
+        if line.startswith("mark gcflex"):
+            return oracles.gc_flex_episode(int(line.split()[2]))["C01"]
         if line.startswith("inst"):
             ctx["accepted"] = 0
         if line.startswith("reset"):
